@@ -296,10 +296,44 @@ func (in *Interp) atomID(s *Str) (*sym.Term, bool) {
 // ---------- derived predicates over views (expanded to the static bound) ----------
 
 func (in *Interp) needMax(v *Str, what string) int {
+	if v.max < 0 || v.max > in.Ex.TightenAbove {
+		in.tightenMax(v)
+	}
 	if v.max < 0 {
 		in.fail("%s needs a statically bounded string", what)
 	}
 	return v.max
+}
+
+// tightenMax asks the solver for the least upper bound of the view's length under the path condition
+// (derived views over-approximate: a Join of Split parts is no longer than the original string).
+func (in *Interp) tightenMax(v *Str) {
+	if v.tight || in.spec {
+		return
+	}
+	v.tight = true
+	st := in.St
+	if v.length.IsConst() {
+		v.max = int(v.length.I)
+		return
+	}
+	hi := v.max
+	if hi < 0 {
+		hi = 512
+		if in.Sol.CheckWith(st.Lt(st.Int(int64(hi)), v.length)) != sym.RUnsat {
+			return
+		}
+	}
+	lo := 0 // invariant: len <= hi always; len > lo-1 possible
+	for lo < hi {
+		mid := (lo + hi) / 2
+		if in.Sol.CheckWith(st.Lt(st.Int(int64(mid)), v.length)) == sym.RUnsat {
+			hi = mid
+		} else {
+			lo = mid + 1
+		}
+	}
+	v.max = hi
 }
 
 func (in *Interp) isSpaceByte(b *sym.Term) *sym.Term {
